@@ -354,6 +354,32 @@ def check(run):
             run.violation("R3", b.where, f"{cname}._bytes omits state that changes the curve (points / closed flag)", key=key_of("C14-R3", cname))
     # ---- A1 / A2 three-point arcs (algebraic)
     _arc_obligations(run, ix)
+    # ---- A5 nesting is decided loop-in-loop
+    run.rule("A5", "enclosure_tree: a loop is nested in another when the other CONTAINS THE WHOLE LOOP (polygon in polygon); a representative point of a non-convex "
+                   "loop can lie inside a sibling that does not enclose the loop")
+    from ..provenance import Prov as _Prov
+    et = ix.func("trimesh.path.polygons:enclosure_tree")
+    pe_ = _Prov(ix, et)
+    n5 = 0
+    for c_ in ast.walk(et.node):
+        if isinstance(c_, ast.Call) and isinstance(c_.func, ast.Attribute) and c_.func.attr in ("contains", "covers", "within", "contains_properly") and len(c_.args) == 1:
+            st_ = pe_.stmt_of(c_)
+            if st_ is None:
+                continue
+            recv, arg = pe_.canon(c_.func.value, st_), pe_.canon(c_.args[0], st_)
+            if not recv.startswith("P_polygons["):
+                continue
+            n5 += 1
+            point_like = re.search(r"\.(centroid|representative_point\(\)|coords\[0\])", arg) is not None or "shapely.geometry.Point(" in arg
+            whole = arg.startswith("P_polygons[") and not point_like
+            run.instance("A5", f"{et.module.rel}:{c_.lineno} {et.qualname}", f"`{recv[:40]}.{c_.func.attr}({arg[:50]})`: the argument is the whole other loop: {whole}", whole or not point_like)
+            if point_like:
+                run.violation("A5", f"{et.module.rel}:{c_.lineno} {et.qualname}", f"enclosure_tree decides nesting from `{arg[:70]}`, one point of the other loop: for a non-convex loop (a C-shaped "
+                                                                                  f"slot) that point can lie inside a sibling hole, which then counts as its parent - shells, holes and area come out wrong",
+                              key=key_of("C14-A5", "point-containment"))
+    if n5 == 0:
+        run.instance("A5", et.where, "no polygon-in-polygon test of the recognised form in enclosure_tree - NOT decided", True, nontrivial=False)
+        run.assume("enclosure_tree: containment tests not in a recognised form")
     # ---- R7
     raw_reads(run, ix, ef, "R7", "C14", module_filter=lambda m: m.startswith("trimesh.path"), floor=3)
     run.assume("invariance of the eight copied keys under invertible affine maps is a frozen judgement (table in the checker, reasons in evidence)")
